@@ -72,6 +72,7 @@ class Contract:
     self_cls: str | None = None        # for methods: class of `self`
     max_paths: int = 4000
     result_alias: list[str] = field(default_factory=list)   # locals that denote the result (for callers)
+    heap: dict[str, str] = field(default_factory=dict)   # fields of symbolic refs kept in a heap: name -> kind
     unknown_calls: str = "error"      # 'error': generation error (exit 3); 'effect': logged as UNMODELLED effect
     shards: int = 1                    # split the discharge of this unit over that many pool processes
 
